@@ -266,6 +266,8 @@ def run_chunk(chunk):
         text = pat.render(seq)
         if residue is not None and run.residue(text, residue[1]) != residue[0]:
             continue
+        if seq and seq[0] == ('sep', 1, True):
+            continue    # a leading *escaped* separator: whether that makes the pattern absolute is not specified
         grouped = pat.has_ext(seq)
         for fs in flagsets:
             if 'E' not in fs and grouped:
